@@ -10,59 +10,205 @@ import HecsModel.Model.World
 namespace Hecs.Props.C09
 open Hecs
 
-theorem insert_fail (w : World) (e : Entity) (b : List Comp) (h : (w.insert e b).2.res = .nosuch) :
-    (w.insert e b).1 = w.flush ∧ (w.insert e b).2.dropped = b := by
-  unfold World.insert at *
-  split at h <;> simp_all
+/-! ### unfolding equations, one per branch -/
+
+theorem insert_located (w : World) (e : Entity) (b : List Comp) (a i : Nat)
+    (hg : w.flush.get e = some (some (a, i))) :
+    w.insert e b = ((w.flush.insertInner e b a a i).1,
+                    { res := .ok, dropped := (w.flush.insertInner e b a a i).2 }) := by
+  simp only [World.insert, hg]
+
+theorem insert_unlocated (w : World) (e : Entity) (b : List Comp)
+    (hg : ¬ ∃ l, w.flush.get e = some (some l)) :
+    w.insert e b = (w.flush, { res := .nosuch, dropped := b }) := by
+  simp only [World.insert]
+  split
+  · rename_i a i h; exact absurd ⟨(a, i), h⟩ hg
+  · rfl
+
+/-- the row `remove`/`exchange` read the named components from -/
+abbrev rowOf (w : World) (e : Entity) (a i : Nat) : Row := ((w.flush.rowAt a i)).getD ⟨e.id, []⟩
+
+theorem remove_nosuch_eq (w : World) (e : Entity) (ts : List Nat) (hg : w.flush.getMut e = none) :
+    w.remove e ts = (w.flush, { res := .nosuch }) := by
+  simp only [World.remove, hg]
+
+theorem remove_missing_eq (w : World) (e : Entity) (ts : List Nat) (a i : Nat)
+    (hg : w.flush.getMut e = some (a, i))
+    (hb : World.bundleGet (rowOf w e a i).vals ts = none) :
+    w.remove e ts = (w.flush, { res := .missing }) := by
+  simp only [rowOf] at hb
+  simp only [World.remove, hg, hb]
+
+theorem remove_found_out (w : World) (e : Entity) (ts : List Nat) (a i : Nat) (got : List Comp)
+    (hg : w.flush.getMut e = some (a, i))
+    (hb : World.bundleGet (rowOf w e a i).vals ts = some got) :
+    (w.remove e ts).2.res = .vals got ∧ (w.remove e ts).2.dropped = [] := by
+  simp only [rowOf] at hb
+  simp only [World.remove, hg, hb]
+  split <;> simp
+
+theorem exchange_unlocated (w : World) (e : Entity) (ts : List Nat) (b : List Comp)
+    (hg : ¬ ∃ l, w.flush.get e = some (some l)) :
+    w.exchange e ts b = (w.flush, { res := .nosuch, dropped := b }) := by
+  simp only [World.exchange]
+  split
+  · rename_i a i h; exact absurd ⟨(a, i), h⟩ hg
+  · rfl
+
+theorem exchange_missing_eq (w : World) (e : Entity) (ts : List Nat) (b : List Comp) (a i : Nat)
+    (hg : w.flush.get e = some (some (a, i)))
+    (hb : World.bundleGet (rowOf w e a i).vals ts = none) :
+    w.exchange e ts b = (w.flush, { res := .missing, dropped := b }) := by
+  simp only [rowOf] at hb
+  simp only [World.exchange, hg, hb]
+
+theorem exchange_found_res (w : World) (e : Entity) (ts : List Nat) (b : List Comp) (a i : Nat)
+    (got : List Comp) (hg : w.flush.get e = some (some (a, i)))
+    (hb : World.bundleGet (rowOf w e a i).vals ts = some got) :
+    (w.exchange e ts b).2.res = .vals got := by
+  simp only [rowOf] at hb
+  simp only [World.exchange, hg, hb]
+
+theorem despawn_nosuch_eq (w : World) (e : Entity) (hf : w.flush.free e = none) :
+    w.despawn e = (w.flush, { res := .nosuch }) := by
+  simp only [World.despawn, hf]
+
+theorem despawn_freed_res (w : World) (e : Entity) (x : World × (Nat × Nat))
+    (hf : w.flush.free e = some x) : (w.despawn e).2.res = .ok := by
+  obtain ⟨w1, a, i⟩ := x
+  simp only [World.despawn, hf]
+
+theorem take_unlocated (w : World) (e : Entity) (hg : ¬ ∃ l, w.flush.get e = some (some l)) :
+    w.take e = (w.flush, none) := by
+  simp only [World.take]
+  split
+  · rename_i a i h; exact absurd ⟨(a, i), h⟩ hg
+  · rfl
+
+theorem take_located (w : World) (e : Entity) (a i : Nat)
+    (hg : w.flush.get e = some (some (a, i))) :
+    (w.take e).2 = some (((w.flush.rowAt a i).map (·.vals)).getD []) := by
+  simp only [World.take, hg]
+  split <;> rfl
+
+/-! ### 1. the drafted theorems -/
 
 theorem insert_fails_iff (w : World) (e : Entity) (b : List Comp) :
     (w.insert e b).2.res = .nosuch ↔ ¬ ∃ l, w.flush.get e = some (some l) := by
-  unfold World.insert
-  split <;> simp_all
-  rename_i a i h; exact ⟨a, i, rfl⟩
+  constructor
+  · intro h ⟨⟨a, i⟩, hg⟩
+    rw [insert_located w e b a i hg] at h
+    simp at h
+  · intro hg
+    rw [insert_unlocated w e b hg]
+
+theorem insert_fail (w : World) (e : Entity) (b : List Comp) (h : (w.insert e b).2.res = .nosuch) :
+    (w.insert e b).1 = w.flush ∧ (w.insert e b).2.dropped = b := by
+  rw [insert_unlocated w e b ((insert_fails_iff w e b).1 h)]
+  exact ⟨rfl, rfl⟩
+
+/-! ### 2. `remove` -/
+
+theorem remove_fails_iff (w : World) (e : Entity) (ts : List Nat) :
+    ((w.remove e ts).2.res = .nosuch ↔ w.flush.getMut e = none) ∧
+    ((w.remove e ts).2.res = .missing ↔
+      ∃ a i, w.flush.getMut e = some (a, i) ∧
+        World.bundleGet (((w.flush.rowAt a i)).getD ⟨e.id, []⟩).vals ts = none) := by
+  cases hg : w.flush.getMut e with
+  | none =>
+    rw [remove_nosuch_eq w e ts hg]
+    simp
+  | some l =>
+    obtain ⟨a, i⟩ := l
+    cases hb : World.bundleGet (rowOf w e a i).vals ts with
+    | none =>
+      rw [remove_missing_eq w e ts a i hg hb]
+      exact ⟨by simp, ⟨fun _ => ⟨a, i, rfl, hb⟩, fun _ => rfl⟩⟩
+    | some got =>
+      rw [(remove_found_out w e ts a i got hg hb).1]
+      refine ⟨by simp, ⟨fun h => (by cases h), ?_⟩⟩
+      rintro ⟨a', i', h1, h2⟩
+      cases h1
+      rw [show World.bundleGet _ ts = some got from hb] at h2
+      cases h2
 
 theorem remove_fail_nosuch (w : World) (e : Entity) (ts : List Nat) (h : (w.remove e ts).2.res = .nosuch) :
     (w.remove e ts).1 = w.flush ∧ (w.remove e ts).2.dropped = [] := by
-  unfold World.remove at *
-  split at h
-  · simp
-  · split at h
-    · simp
-    · split at h <;> simp at h
+  rw [remove_nosuch_eq w e ts ((remove_fails_iff w e ts).1.1 h)]
+  exact ⟨rfl, rfl⟩
 
 /-- `remove` is all-or-nothing: when some named component is missing nothing is removed, nothing is
 dropped and no archetype is created -/
 theorem remove_fail_missing (w : World) (e : Entity) (ts : List Nat) (h : (w.remove e ts).2.res = .missing) :
     (w.remove e ts).1 = w.flush ∧ (w.remove e ts).2.dropped = [] := by
-  unfold World.remove at *
-  split at h
-  · simp
-  · split at h
-    · simp
-    · split at h <;> simp at h
+  obtain ⟨a, i, hg, hb⟩ := (remove_fails_iff w e ts).2.1 h
+  rw [remove_missing_eq w e ts a i hg hb]
+  exact ⟨rfl, rfl⟩
+
+/-! ### 4. `exchange` -/
+
+theorem exchange_fails_iff (w : World) (e : Entity) (ts : List Nat) (b : List Comp) :
+    ((w.exchange e ts b).2.res = .nosuch ↔ ¬ ∃ l, w.flush.get e = some (some l)) ∧
+    ((w.exchange e ts b).2.res = .missing ↔
+      ∃ a i, w.flush.get e = some (some (a, i)) ∧
+        World.bundleGet (((w.flush.rowAt a i)).getD ⟨e.id, []⟩).vals ts = none) := by
+  by_cases hl : ∃ l, w.flush.get e = some (some l)
+  · obtain ⟨⟨a, i⟩, hg⟩ := hl
+    cases hb : World.bundleGet (rowOf w e a i).vals ts with
+    | none =>
+      rw [exchange_missing_eq w e ts b a i hg hb]
+      exact ⟨by simp [hg], ⟨fun _ => ⟨a, i, hg, hb⟩, fun _ => rfl⟩⟩
+    | some got =>
+      rw [exchange_found_res w e ts b a i got hg hb]
+      refine ⟨by simp [hg], ⟨fun h => (by cases h), ?_⟩⟩
+      rintro ⟨a', i', h1, h2⟩
+      rw [hg] at h1
+      cases h1
+      rw [show World.bundleGet _ ts = some got from hb] at h2
+      cases h2
+  · rw [exchange_unlocated w e ts b hl]
+    refine ⟨by simp [hl], ?_⟩
+    constructor
+    · intro h; simp at h
+    · rintro ⟨a, i, hg, _⟩; exact absurd ⟨(a, i), hg⟩ hl
 
 theorem exchange_fail (w : World) (e : Entity) (ts : List Nat) (b : List Comp)
     (h : (w.exchange e ts b).2.res = .nosuch ∨ (w.exchange e ts b).2.res = .missing) :
     (w.exchange e ts b).1 = w.flush ∧ (w.exchange e ts b).2.dropped = b := by
-  unfold World.exchange at *
-  split at h
-  · split at h
-    · simp
-    · simp at h
-  · simp
+  rcases h with h | h
+  · rw [exchange_unlocated w e ts b ((exchange_fails_iff w e ts b).1.1 h)]
+    exact ⟨rfl, rfl⟩
+  · obtain ⟨a, i, hg, hb⟩ := (exchange_fails_iff w e ts b).2.1 h
+    rw [exchange_missing_eq w e ts b a i hg hb]
+    exact ⟨rfl, rfl⟩
+
+/-! ### 3. `despawn`, `take` -/
+
+theorem despawn_fails_iff (w : World) (e : Entity) :
+    (w.despawn e).2.res = .nosuch ↔ w.flush.free e = none := by
+  cases hf : w.flush.free e with
+  | none => rw [despawn_nosuch_eq w e hf]; simp
+  | some x => rw [despawn_freed_res w e x hf]; simp
 
 theorem despawn_fail (w : World) (e : Entity) (h : (w.despawn e).2.res = .nosuch) :
     (w.despawn e).1 = w.flush ∧ (w.despawn e).2.dropped = [] := by
-  unfold World.despawn at *
-  split at h
-  · simp
-  · simp at h
+  rw [despawn_nosuch_eq w e ((despawn_fails_iff w e).1 h)]
+  exact ⟨rfl, rfl⟩
+
+theorem take_fails_iff (w : World) (e : Entity) :
+    (w.take e).2 = none ↔ ¬ ∃ l, w.flush.get e = some (some l) := by
+  constructor
+  · intro h ⟨⟨a, i⟩, hg⟩
+    rw [take_located w e a i hg] at h
+    simp at h
+  · intro hg
+    rw [take_unlocated w e hg]
 
 theorem take_fail (w : World) (e : Entity) (h : (w.take e).2 = none) : (w.take e).1 = w.flush := by
-  unfold World.take at *
-  split at h
-  · split at h <;> simp at h
-  · simp
+  rw [take_unlocated w e ((take_fails_iff w e).1 h)]
+
+/-! ### `Bundle::get` -/
 
 /-- `Bundle::get` reads nothing unless every named component is present -/
 theorem bundleGet_all_or_nothing (vals : List Comp) (ts : List Nat) :
@@ -72,6 +218,290 @@ theorem bundleGet_all_or_nothing (vals : List Comp) (ts : List Nat) :
   | cons t ts ih =>
     simp only [World.bundleGet, List.all_cons]
     cases h1 : lookupComp t vals <;> cases h2 : World.bundleGet vals ts <;> simp_all
+
+/-- what `Bundle::get` returns carries exactly the named types, in field order -/
+theorem bundleGet_types (vals : List Comp) (ts : List Nat) (got : List Comp)
+    (h : World.bundleGet vals ts = some got) : got.map (·.1) = ts := by
+  induction ts generalizing got with
+  | nil => simp [World.bundleGet] at h; simp [← h]
+  | cons t ts ih =>
+    simp only [World.bundleGet] at h
+    cases h1 : lookupComp t vals with
+    | none => simp [h1] at h
+    | some v =>
+      cases h2 : World.bundleGet vals ts with
+      | none => simp [h1, h2] at h
+      | some r =>
+        simp [h1, h2] at h
+        subst h
+        simp [ih r h2]
+
+/-- … and each returned value is the one stored under that type -/
+theorem bundleGet_values (vals : List Comp) (ts : List Nat) (got : List Comp)
+    (h : World.bundleGet vals ts = some got) :
+    ∀ c ∈ got, lookupComp c.1 vals = some c.2 := by
+  induction ts generalizing got with
+  | nil => simp [World.bundleGet] at h; subst h; intro c hc; cases hc
+  | cons t ts ih =>
+    simp only [World.bundleGet] at h
+    cases h1 : lookupComp t vals with
+    | none => simp [h1] at h
+    | some v =>
+      cases h2 : World.bundleGet vals ts with
+      | none => simp [h1, h2] at h
+      | some r =>
+        simp [h1, h2] at h
+        subst h
+        intro c hc
+        rcases List.mem_cons.1 hc with rfl | hc
+        · exact h1
+        · exact ih r h2 c hc
+
+/-! ### 5. the only results each operation can return -/
+
+theorem insert_results (w : World) (e : Entity) (b : List Comp) :
+    (w.insert e b).2.res = .ok ∨ (w.insert e b).2.res = .nosuch := by
+  by_cases hl : ∃ l, w.flush.get e = some (some l)
+  · obtain ⟨⟨a, i⟩, hg⟩ := hl
+    rw [insert_located w e b a i hg]; exact .inl rfl
+  · rw [insert_unlocated w e b hl]; exact .inr rfl
+
+theorem remove_results (w : World) (e : Entity) (ts : List Nat) :
+    (w.remove e ts).2.res = .nosuch ∨ (w.remove e ts).2.res = .missing ∨
+      ∃ got, (w.remove e ts).2.res = .vals got := by
+  cases hg : w.flush.getMut e with
+  | none => rw [remove_nosuch_eq w e ts hg]; exact .inl rfl
+  | some l =>
+    obtain ⟨a, i⟩ := l
+    cases hb : World.bundleGet (rowOf w e a i).vals ts with
+    | none => rw [remove_missing_eq w e ts a i hg hb]; exact .inr (.inl rfl)
+    | some got => exact .inr (.inr ⟨got, (remove_found_out w e ts a i got hg hb).1⟩)
+
+theorem exchange_results (w : World) (e : Entity) (ts : List Nat) (b : List Comp) :
+    (w.exchange e ts b).2.res = .nosuch ∨ (w.exchange e ts b).2.res = .missing ∨
+      ∃ got, (w.exchange e ts b).2.res = .vals got := by
+  by_cases hl : ∃ l, w.flush.get e = some (some l)
+  · obtain ⟨⟨a, i⟩, hg⟩ := hl
+    cases hb : World.bundleGet (rowOf w e a i).vals ts with
+    | none => rw [exchange_missing_eq w e ts b a i hg hb]; exact .inr (.inl rfl)
+    | some got => exact .inr (.inr ⟨got, exchange_found_res w e ts b a i got hg hb⟩)
+  · rw [exchange_unlocated w e ts b hl]; exact .inl rfl
+
+theorem despawn_results (w : World) (e : Entity) :
+    (w.despawn e).2.res = .ok ∨ (w.despawn e).2.res = .nosuch := by
+  cases hf : w.flush.free e with
+  | none => rw [despawn_nosuch_eq w e hf]; exact .inr rfl
+  | some x => exact .inl (despawn_freed_res w e x hf)
+
+theorem success_results (w : World) (e : Entity) (ts : List Nat) (b : List Comp) :
+    ((w.insert e b).2.res = .ok ∨ (w.insert e b).2.res = .nosuch) ∧
+    ((w.remove e ts).2.res = .nosuch ∨ (w.remove e ts).2.res = .missing ∨
+      ∃ got, (w.remove e ts).2.res = .vals got) ∧
+    ((w.exchange e ts b).2.res = .nosuch ∨ (w.exchange e ts b).2.res = .missing ∨
+      ∃ got, (w.exchange e ts b).2.res = .vals got) ∧
+    ((w.despawn e).2.res = .ok ∨ (w.despawn e).2.res = .nosuch) :=
+  ⟨insert_results w e b, remove_results w e ts, exchange_results w e ts b, despawn_results w e⟩
+
+/-! ### 6. a successful `remove`/`exchange` returns exactly the named bundle -/
+
+/-- the returned values are read from the entity's row *before* the operation -/
+theorem remove_success_reads (w : World) (e : Entity) (ts : List Nat) (got : List Comp)
+    (h : (w.remove e ts).2.res = .vals got) :
+    ∃ a i, w.flush.getMut e = some (a, i) ∧
+      World.bundleGet (((w.flush.rowAt a i)).getD ⟨e.id, []⟩).vals ts = some got := by
+  cases hg : w.flush.getMut e with
+  | none => rw [remove_nosuch_eq w e ts hg] at h; simp at h
+  | some l =>
+    obtain ⟨a, i⟩ := l
+    cases hb : World.bundleGet (rowOf w e a i).vals ts with
+    | none => rw [remove_missing_eq w e ts a i hg hb] at h; simp at h
+    | some got' =>
+      rw [(remove_found_out w e ts a i got' hg hb).1] at h
+      cases h
+      exact ⟨a, i, rfl, hb⟩
+
+theorem remove_success_returns (w : World) (e : Entity) (ts : List Nat) (got : List Comp)
+    (h : (w.remove e ts).2.res = .vals got) : got.map (·.1) = ts := by
+  obtain ⟨a, i, _, hb⟩ := remove_success_reads w e ts got h
+  exact bundleGet_types _ ts got hb
+
+/-- a successful `remove` drops nothing: the removed values are handed to the caller -/
+theorem remove_success_drops_nothing (w : World) (e : Entity) (ts : List Nat) (got : List Comp)
+    (h : (w.remove e ts).2.res = .vals got) : (w.remove e ts).2.dropped = [] := by
+  obtain ⟨a, i, hg, hb⟩ := remove_success_reads w e ts got h
+  exact (remove_found_out w e ts a i got hg hb).2
+
+theorem exchange_success_reads (w : World) (e : Entity) (ts : List Nat) (b : List Comp)
+    (got : List Comp) (h : (w.exchange e ts b).2.res = .vals got) :
+    ∃ a i, w.flush.get e = some (some (a, i)) ∧
+      World.bundleGet (((w.flush.rowAt a i)).getD ⟨e.id, []⟩).vals ts = some got := by
+  by_cases hl : ∃ l, w.flush.get e = some (some l)
+  · obtain ⟨⟨a, i⟩, hg⟩ := hl
+    cases hb : World.bundleGet (rowOf w e a i).vals ts with
+    | none => rw [exchange_missing_eq w e ts b a i hg hb] at h; simp at h
+    | some got' =>
+      rw [exchange_found_res w e ts b a i got' hg hb] at h
+      cases h
+      exact ⟨a, i, hg, hb⟩
+  · rw [exchange_unlocated w e ts b hl] at h; simp at h
+
+theorem exchange_success_returns (w : World) (e : Entity) (ts : List Nat) (b : List Comp)
+    (got : List Comp) (h : (w.exchange e ts b).2.res = .vals got) : got.map (·.1) = ts := by
+  obtain ⟨a, i, _, hb⟩ := exchange_success_reads w e ts b got h
+  exact bundleGet_types _ ts got hb
+
+/-! ### 7. summary over operations as data -/
+
+/-- the bundle an operation hands to the world, which is dropped intact if the operation fails -/
+def rejected : Op → List Comp
+  | .insert _ b => b
+  | .exchange _ _ b => b
+  | _ => []
+
+/-- Every operation of the API, not only the five fallible ones: if the result is a failure
+(`nosuch`/`missing`) the world is exactly the flushed world and exactly the rejected bundle is
+dropped. -/
+theorem failed_step_no_effect (w : World) (op : Op)
+    (h : (step w op).2.res = .nosuch ∨ (step w op).2.res = .missing) :
+    (step w op).1 = w.flush ∧ (step w op).2.dropped = rejected op := by
+  cases op with
+  | insert e b =>
+    simp only [step, rejected] at h ⊢
+    rcases h with h | h
+    · exact insert_fail w e b h
+    · rcases insert_results w e b with h' | h' <;> rw [h'] at h <;> cases h
+  | remove e ts =>
+    simp only [step, rejected] at h ⊢
+    rcases h with h | h
+    · exact remove_fail_nosuch w e ts h
+    · exact remove_fail_missing w e ts h
+  | exchange e ts b =>
+    simp only [step, rejected] at h ⊢
+    exact exchange_fail w e ts b h
+  | despawn e =>
+    simp only [step, rejected] at h ⊢
+    rcases h with h | h
+    · exact despawn_fail w e h
+    · rcases despawn_results w e with h' | h' <;> rw [h'] at h <;> cases h
+  | takeDrop e =>
+    simp only [step, rejected] at h ⊢
+    by_cases hl : ∃ l, w.flush.get e = some (some l)
+    · obtain ⟨⟨a, i⟩, hg⟩ := hl
+      have ht := take_located w e a i hg
+      rcases hx : w.take e with ⟨w', o⟩
+      rw [hx] at ht h
+      simp only at ht
+      subst ht
+      simp at h
+    · rw [take_unlocated w e hl]
+      exact ⟨rfl, rfl⟩
+  | spawn b => simp [step, World.spawn] at h
+  | spawnAt hh b => simp [step, World.spawnAt] at h
+  | spawnBatch ts rows => simp [step, World.spawnBatch] at h
+  | spawnColumnBatch ts rows => simp [step, World.spawnColumnBatch] at h
+  | spawnColumnBatchAt hs ts rows =>
+    simp only [step, World.spawnColumnBatchAt] at h
+    split at h <;> simp at h
+  | clear => simp [step, World.clear] at h
+  | flush => simp [step] at h
+  | reserve ts => simp [step] at h
+  | reserveEntity => simp [step] at h
+  | reserveEntities n => simp [step] at h
+
+theorem failed_ops_drop_nothing_else (w : World) (op : Op)
+    (_hop : (∃ e b, op = .insert e b) ∨ (∃ e ts, op = .remove e ts) ∨
+      (∃ e ts b, op = .exchange e ts b) ∨ (∃ e, op = .despawn e) ∨ (∃ e, op = .takeDrop e))
+    (h : (step w op).2.res = .nosuch ∨ (step w op).2.res = .missing) :
+    (step w op).1 = w.flush :=
+  (failed_step_no_effect w op h).1
+
+/-- per-operation reading of `failed_step_no_effect`: `remove`/`despawn`/`take` drop nothing when
+they fail, `insert`/`exchange` drop exactly the rejected bundle -/
+theorem failed_ops_dropped (w : World) (e : Entity) (ts : List Nat) (b : List Comp) :
+    ((step w (.insert e b)).2.res = .nosuch → (step w (.insert e b)).2.dropped = b) ∧
+    ((step w (.remove e ts)).2.res = .nosuch ∨ (step w (.remove e ts)).2.res = .missing →
+      (step w (.remove e ts)).2.dropped = []) ∧
+    ((step w (.exchange e ts b)).2.res = .nosuch ∨ (step w (.exchange e ts b)).2.res = .missing →
+      (step w (.exchange e ts b)).2.dropped = b) ∧
+    ((step w (.despawn e)).2.res = .nosuch → (step w (.despawn e)).2.dropped = []) ∧
+    ((step w (.takeDrop e)).2.res = .nosuch → (step w (.takeDrop e)).2.dropped = []) :=
+  ⟨fun h => (failed_step_no_effect w _ (.inl h)).2,
+   fun h => (failed_step_no_effect w _ h).2,
+   fun h => (failed_step_no_effect w _ h).2,
+   fun h => (failed_step_no_effect w _ (.inl h)).2,
+   fun h => (failed_step_no_effect w _ (.inl h)).2⟩
+
+/-- in particular a failed operation creates no archetype (beyond what `flush` itself never does) -/
+theorem failed_step_no_new_archetype (w : World) (op : Op)
+    (h : (step w op).2.res = .nosuch ∨ (step w op).2.res = .missing) :
+    (step w op).1.archs = w.flush.archs := by
+  rw [(failed_step_no_effect w op h).1]
+
+/-! ### 8. non-vacuity on concrete worlds
+
+`World` has no `DecidableEq` (it holds `Array Arch`), so worlds are compared through a decidable
+projection; `decide +kernel` evaluates the `Array` primitives in the kernel; the checker still reports only `propext`. -/
+
+structure View where
+  metas : List Meta
+  pending : List Nat
+  cursor : Int
+  len : Nat
+  archs : List (List Nat × List Row)
+  deriving DecidableEq
+
+/-- everything there is in a world, as a value with decidable equality -/
+def view (w : World) : View :=
+  ⟨w.metas.toList, w.pending.toList, w.cursor, w.len,
+   w.archs.toList.map (fun a => (a.types, a.rows.toList))⟩
+
+/-- `view` loses nothing -/
+theorem view_injective (w w' : World) (h : view w = view w') : w = w' := by
+  obtain ⟨m, p, c, l, ar⟩ := w
+  obtain ⟨m', p', c', l', ar'⟩ := w'
+  simp only [view, View.mk.injEq] at h
+  obtain ⟨h1, h2, h3, h4, h5⟩ := h
+  have hm : m = m' := Array.toList_inj.1 h1
+  have hp : p = p' := Array.toList_inj.1 h2
+  have ha : ar = ar' := by
+    apply Array.toList_inj.1
+    refine (List.map_inj_right ?_).1 h5
+    rintro ⟨t, r⟩ ⟨t', r'⟩ hx
+    simp only [Prod.mk.injEq] at hx
+    rw [hx.1, Array.toList_inj.1 hx.2]
+  subst hm hp h3 h4 ha
+  rfl
+
+/-- entity 0 has types 1 and 2, entity 1 has type 1 only -/
+def exWorld : World := run [.spawn [(1, 10), (2, 20)], .spawn [(1, 11)]]
+
+/-- the same with one outstanding reservation, so that `flush` is not the identity -/
+def exWorldR : World := run [.spawn [(1, 10), (2, 20)], .spawn [(1, 11)], .reserveEntity]
+
+-- a failing `remove` of a type the entity does not have: hypothesis of `remove_fail_missing` holds
+example : (step exWorld (.remove ⟨1, 1⟩ [1, 2])).2.res = .missing := by decide +kernel
+example : (step exWorld (.remove ⟨1, 1⟩ [1, 2])).2.dropped = [] := by decide +kernel
+example : (step exWorld (.remove ⟨1, 1⟩ [1, 2])).1 = exWorld.flush := view_injective _ _ (by decide +kernel)
+-- a failing `remove`/`insert`/`exchange`/`despawn`/`take` on a stale handle
+example : (step exWorld (.remove ⟨1, 7⟩ [1])).2.res = .nosuch := by decide +kernel
+example : (step exWorld (.insert ⟨1, 7⟩ [(3, 30)])).2.res = .nosuch := by decide +kernel
+example : (step exWorld (.insert ⟨1, 7⟩ [(3, 30)])).2.dropped = [(3, 30)] := by decide +kernel
+example : (step exWorld (.insert ⟨1, 7⟩ [(3, 30)])).1 = exWorld.flush := view_injective _ _ (by decide +kernel)
+example : (step exWorld (.exchange ⟨1, 7⟩ [1] [(3, 30)])).2.res = .nosuch := by decide +kernel
+example : (step exWorld (.exchange ⟨1, 1⟩ [2] [(3, 30)])).2.res = .missing := by decide +kernel
+example : (step exWorld (.exchange ⟨1, 1⟩ [2] [(3, 30)])).2.dropped = [(3, 30)] := by decide +kernel
+example : (step exWorld (.despawn ⟨1, 7⟩)).2.res = .nosuch := by decide +kernel
+example : (step exWorld (.takeDrop ⟨1, 7⟩)).2.res = .nosuch := by decide +kernel
+-- the same operations can succeed, so the classification theorems are not one-sided
+example : (step exWorld (.remove ⟨0, 1⟩ [2, 1])).2.res = .vals [(2, 20), (1, 10)] := by decide +kernel
+example : (step exWorld (.insert ⟨1, 1⟩ [(3, 30)])).2.res = .ok := by decide +kernel
+example : (step exWorld (.exchange ⟨0, 1⟩ [2] [(3, 30)])).2.res = .vals [(2, 20)] := by decide +kernel
+example : (step exWorld (.despawn ⟨1, 1⟩)).2.res = .ok := by decide +kernel
+-- "the flushed world", not "the same world": with a reservation outstanding a failed call still
+-- flushes (the reserved id gets its empty row) and that is all it does
+example : (step exWorldR (.insert ⟨0, 7⟩ [(3, 30)])).2.res = .nosuch := by decide +kernel
+example : (step exWorldR (.insert ⟨0, 7⟩ [(3, 30)])).1 = exWorldR.flush := view_injective _ _ (by decide +kernel)
+example : exWorldR.flush ≠ exWorldR := fun h => absurd (congrArg view h) (by decide +kernel)
 
 /-- the read accessors are pure: they cannot change the world (they take `&World` and return no
 state); stated for the model's `get`/`contains` by construction -/
